@@ -110,15 +110,22 @@ structure RawCfg where
 
 def isSpace (c : Char) : Bool := c == ' ' || c == '\t' || c == '\n' || c == '\r'
 
-def trimSp (s : String) : String :=
-  String.ofList ((s.toList.dropWhile isSpace).reverse.dropWhile isSpace).reverse
+def trimChars (cs : List Char) : List Char :=
+  ((cs.dropWhile isSpace).reverse.dropWhile isSpace).reverse
+
+def trimSp (s : String) : String := String.ofList (trimChars s.toList)
 
 def dedupe : List String → List String
   | [] => []
   | x :: xs => x :: (dedupe xs).filter (· ≠ x)
 
+/-- `strings.Split(s, ",")` on the characters (`acc`: the current item, reversed). -/
+def splitComma : List Char → List Char → List (List Char)
+  | acc, [] => [acc.reverse]
+  | acc, c :: cs => if c = ',' then acc.reverse :: splitComma [] cs else splitComma (c :: acc) cs
+
 def splitIds (ids : String) : List String :=
-  dedupe (((ids.splitOn ",").map trimSp).filter (· ≠ ""))
+  dedupe (((splitComma [] ids.toList).map (fun cs => String.ofList (trimChars cs))).filter (· ≠ ""))
 
 def clampNat : Option Int → Nat
   | some n => n.toNat
